@@ -55,6 +55,7 @@ OUTSIDE_FRAMES = ("storage.(*fileStore).open()", "storage.CreateDB()")
 HARNESS_MARK = "zz_verif_"
 
 CALL_ACTION = {"StartTxn": "LockShared", "EndTxn": "UnlockShared", "Fetch": "CacheTouch",
+               "CheckInsert": "CacheTouch", "CheckUpdate": "CacheTouch",
                "Insert": "Mutate", "Update": "Mutate", "MarkDeleted": "Mutate",
                "FlushWALBatch": "LogAppend"}
 KIND_PROTO = {"select": "proto_select", "insert": "proto_insert", "update": "proto_update",
@@ -136,11 +137,11 @@ def evaluate_io():
 From Mkdb Require Import Spec.IoSpec Gen.IoSites.
 Import ListNotations.
 Local Open Scope string_scope.
-Definition io_verdict := Eval vm_compute in io_classification_ok io_sites reaches_data_write reaches_log_write classified.
+Definition io_verdict := Eval vm_compute in io_classification_ok io_sites reaches_data_write reaches_log_write reaches_lock_op classified.
 Print io_verdict.
 Definition bad_classes := Eval vm_compute in
-  map (fun fc => (fst fc, snd fc, lookup (fst fc) reaches_data_write, lookup (fst fc) reaches_log_write))
-      (filter (fun fc => negb (class_ok reaches_data_write reaches_log_write fc)) classified).
+  map (fun fc => (fst fc, snd fc, lookup (fst fc) reaches_data_write, lookup (fst fc) reaches_log_write, lookup (fst fc) reaches_lock_op))
+      (filter (fun fc => negb (class_ok reaches_data_write reaches_log_write reaches_lock_op fc)) classified).
 Print bad_classes.
 Definition bad_sites := Eval vm_compute in filter (fun s => negb (site_ok classified s)) io_sites.
 Print bad_sites.
@@ -222,7 +223,7 @@ def race_signature(r):
     return " <-> ".join("%s %s" % (a["op"], top_mkdb_frame(a) or "?") for a in r["accesses"])
 
 
-def run_one(binp, cfg, timeout=600):
+def run_one(binp, cfg, timeout=240):
     wd = tempfile.mkdtemp(prefix="verif_c13_")
     try:
         env = {"GORACE": "log_path=%s exitcode=66 halt_on_error=0" % os.path.join(wd, "race.log")}
@@ -302,8 +303,8 @@ def run(ctx):
     io_ran, io_ok, io_detail = evaluate_io() if tok else (False, False, {})
     if tok and not io_ok:
         ctx.proof_broken.insert(0, "C13_classification_sound fails: a callee that the protocol extraction treats as not "
-                                "writing can reach a write of the data file or the log, or a write site lies outside the "
-                                "classified writers: %s" % json.dumps(io_detail))
+                                "writing / not locking can reach a write of the data file or the log or an operation on "
+                                "fileStore.mtx, or a write / lock site lies outside the classified functions: %s" % json.dumps(io_detail))
     search = bool(ctx.proof_broken)
 
     # ---- 2. dynamic run ----------------------------------------------------------------------
@@ -324,7 +325,12 @@ def run(ctx):
 
     incomplete = [r for r in results if not completed(r)]
     if incomplete:
-        raise RuntimeError("race driver did not finish: " + incomplete[0]["log"])
+        if not ctx.proof_broken:
+            raise RuntimeError("race driver did not finish: " + incomplete[0]["log"])
+        # the static obligation is already broken (e.g. a callee now locks): a statement that never returns is
+        # C18's subject; the runs that finished are still judged
+        ctx.report.notes.append("race driver did not finish in %d of %d configurations (a statement hung)" % (len(incomplete), len(results)))
+        results = [r for r in results if completed(r)]
 
     # S1: writes while parked
     s1 = [(r, w) for r in results for w in parked_writes(r)]
